@@ -84,7 +84,13 @@ impl GWorld {
             return s.clone();
         }
         let mut s = format!("head{i}\n");
-        for j in &self.deps[i] {
+        if self.nonascii_block(i) {
+            s.push_str(&format!("w{i}\nc{i}  é\n"));
+        }
+        for (k, j) in self.deps[i].iter().enumerate() {
+            if k >= 1 && self.same_prefix(i) {
+                s.push_str(&format!("mid{i}_{k}\n"));
+            }
             if !Self::is_after(i, *j) {
                 let inc = self.expected(*j, memo);
                 s.push_str(&inc);
@@ -111,6 +117,17 @@ impl GWorld {
     fn esc_block(&self, i: usize) -> bool {
         !self.markers && !self.deps[i].is_empty() && !self.no_tail(i)
     }
+    /// files with two or more dependencies (every second one): all dependency directives carry the same prefix `// `, and
+    /// between them stands an empty directive with that prefix (multi-line capable) followed by a plain line - the
+    /// plain line ends the empty directive, so the next `// TXTPP#include` is a directive of its own, in every pass
+    fn same_prefix(&self, i: usize) -> bool {
+        !self.markers && self.deps[i].len() >= 2 && i % 2 == 0
+    }
+    /// every third file starts with a multi-line `write` whose prefix `« ` is not ASCII: the continuation line has as
+    /// many spaces as the prefix has bytes (3); the line after it has two spaces (the prefix's character count) and is text
+    fn nonascii_block(&self, i: usize) -> bool {
+        !self.markers && i % 3 == 1
+    }
     /// every other file with dependencies ends with its last dependency directive as the final line of the
     /// source (nothing after it); not in marker worlds, whose completeness oracle looks for the tail line
     fn no_tail(&self, i: usize) -> bool {
@@ -122,10 +139,13 @@ impl GWorld {
             s.push_str(&format!("-TXTPP#run echo pre{i} >> \"$VERIF_LOG\"\n"));
         }
         // distinct prefixes: consecutive directive lines with the same prefix would merge into one
+        if self.nonascii_block(i) {
+            s.push_str(&format!("« TXTPP#write w{i}\n   c{i}\n  é\n"));
+        }
         if self.fail_first[i] {
             s.push_str("//TXTPP#run exit 3\n");
         }
-        for j in &self.deps[i] {
+        for (k, j) in self.deps[i].iter().enumerate() {
             // the same file is spelled in different ways by different includers
             let sp = if self.file_dir.is_empty() {
                 // plain, through a directory and back, with `./`, through a symbolic link to the base directory,
@@ -143,10 +163,14 @@ impl GWorld {
                 let mut r = Rng::new((i * 7 + j) as u64);
                 crate::gen::rel_path(&from, &to, &mut r)
             };
+            let pre = if self.same_prefix(i) { "// " } else { "" };
+            if k >= 1 && self.same_prefix(i) {
+                s.push_str(&format!("// TXTPP#\nmid{i}_{k}\n"));
+            }
             if Self::is_after(i, *j) {
-                s.push_str(&format!("TXTPP#after {sp}\n"));
+                s.push_str(&format!("{pre}TXTPP#after {sp}\n"));
             } else {
-                s.push_str(&format!("TXTPP#include {sp}\n"));
+                s.push_str(&format!("{pre}TXTPP#include {sp}\n"));
             }
         }
         if self.esc_block(i) {
@@ -211,7 +235,14 @@ impl GWorld {
             let rel = self.file_rel(i);
             std::fs::write(dir.join(&rel), self.source(i).replace("@ABS@", &abs)).unwrap();
             if stale {
-                std::fs::write(dir.join(self.out_rel(i)), format!("head{i}\nSTALE\n")).unwrap();
+                if self.file_dir.is_empty() && i % 4 == 1 {
+                    // the stale output is a symbolic link to a file in another directory: the build writes through it
+                    std::fs::create_dir_all(dir.join("elsewhere")).unwrap();
+                    std::fs::write(dir.join("elsewhere").join(Self::out_name(i)), format!("head{i}\nSTALE\n")).unwrap();
+                    let _ = std::os::unix::fs::symlink(format!("elsewhere/{}", Self::out_name(i)), dir.join(self.out_rel(i)));
+                } else {
+                    std::fs::write(dir.join(self.out_rel(i)), format!("head{i}\nSTALE\n")).unwrap();
+                }
             }
         }
     }
